@@ -63,7 +63,10 @@ Section Inv.
   (** ** ghost state *)
   Inductive phase := PIdle | PConv (a i p n : nat) | PStored (a i p n : nat).
 
-  Record L := mkL { ph : phase; ka : nat; ko : nat; kpre : N }.
+  (** what a thread knows: its expand phase, the prefix of one linked array, the key of one item it saw in a slot
+      ([kit] = 0: nothing), and the key of the item it created itself ([kid] = 0: none) *)
+  Record L := mkL { ph : phase; ka : nat; ko : nat; kpre : N; kit : nat; kkey : nat; kid : nat; kidk : nat }.
+  Definition set_ph (l : L) (x : phase) : L := mkL x (ka l) (ko l) (kpre l) (kit l) (kkey l) (kid l) (kidk l).
 
   Record Aux := mkAux { pfx : nat -> option (nat * N); views : nat -> L }.
 
@@ -97,7 +100,9 @@ Section Inv.
     i_pend_uniq : forall t t' a i p n a' i' p' n', t <> t' -> pending (views A t) a i p n -> pending (views A t') a' i' p' n' ->
               n <> n' /\ (a, i) <> (a', i');
     i_unlinked : forall n, pfx A n = None -> (forall t a i p, ~ pending (views A t) a i p n) -> forall j, arr g n j = snull;
-    i_known : forall t, pfx A (ka (views A t)) = Some (ko (views A t), kpre (views A t))
+    i_known : forall t, pfx A (ka (views A t)) = Some (ko (views A t), kpre (views A t));
+    i_items : forall t, (kit (views A t) <> 0 -> kit (views A t) <= nitem g /\ ikey g (kit (views A t)) = kkey (views A t)) /\
+                        (kid (views A t) <> 0 -> kid (views A t) <= nitem g /\ ikey g (kid (views A t)) = kidk (views A t))
   }.
 
   (** ** updating ghost state *)
@@ -163,10 +168,13 @@ Section Inv.
       { destruct (i_pend0 t a i p n (or_intror Hph)) as (Hs & _ & _ & _ & Hp0 & _).
         destruct (i_data0 a o pre i p 1 Hp Hs ltac:(discriminate) Hp0) as (_ & Hle & _). exact Hle. }
       destruct (Nat.eqb_spec p (S (nitem g))); [lia|reflexivity].
+    - intros t. destruct (i_items0 t) as [H1 H2]. split; intros H; [destruct (H1 H) as [K1 K2]|destruct (H2 H) as [K1 K2]];
+        (split; [lia|]); match goal with |- (if ?c then _ else _) = _ => destruct c eqn:E end; try exact K2;
+        apply Nat.eqb_eq in E; lia.
   Qed.
 
   (** changing only what a thread knows (which linked array it is looking at) *)
-  Definition know (l : L) (a o : nat) (pre : N) : L := mkL (ph l) a o pre.
+  Definition know (l : L) (a o : nat) (pre : N) : L := mkL (ph l) a o pre (kit l) (kkey l) (kid l) (kidk l).
 
   Lemma pending_know l a o pre a' i p n : pending (know l a o pre) a' i p n <-> pending l a' i p n.
   Proof. unfold pending, know; cbn. tauto. Qed.
@@ -187,6 +195,7 @@ Section Inv.
     - intros n Hn Hnp. apply i_unlinked0; [exact Hn|]. intros u a' i p Hpd. apply (Hnp u a' i p).
       cbn. destruct (Nat.eqb_spec u t) as [->|]; [apply pending_know|]; exact Hpd.
     - intros u. cbn. destruct (Nat.eqb_spec u t) as [->|]; [cbn; exact Hp|apply i_known0].
+    - intros u. cbn. destruct (Nat.eqb_spec u t) as [->|]; [cbn|]; apply i_items0.
   Qed.
 
   (** a CAS that changes a data slot of a linked array: insert (null -> q), replace (p -> q, same hash), erase (p -> null) *)
@@ -224,7 +233,7 @@ Section Inv.
   Lemma Inv_conv g A tr t a i p o pre :
     Inv g A tr -> arr g a i = mkSlot p 0 -> p <> 0 -> pfx A a = Some (o, pre) -> ph (views A t) = PIdle ->
     Inv (mkG (set_slot (arr g) a i (mkSlot p 1)) (S (narr g)) (nitem g) (ikey g) (count g))
-        (set_view A t (mkL (PConv a i p (narr g)) (ka (views A t)) (ko (views A t)) (kpre (views A t)))) tr.
+        (set_view A t (set_ph (views A t) (PConv a i p (narr g)))) tr.
   Proof.
     intros I Hs Hp0 Hp Hidle. destruct I.
     set (n := narr g). set (A' := set_view A t _).
@@ -289,13 +298,14 @@ Section Inv.
       apply i_unlinked0; [exact Hn0|]. intros u a1 i1 p1 Hpd. destruct (OLD _ _ _ _ _ Hpd) as (Hu & _).
       apply (Hnp u a1 i1 p1). unfold A'; cbn. destruct (Nat.eqb_spec u t); [congruence|exact Hpd].
     - intros u. unfold A'; cbn. destruct (Nat.eqb_spec u t) as [->|]; [cbn|]; apply i_known0.
+    - intros u. unfold A'; cbn [views set_view set_pfx]. destruct (Nat.eqb_spec u t) as [->|]; [cbn|]; apply i_items0.
   Qed.
 
   (** the store of the moved item into the pending array node *)
   Lemma Inv_store g A tr t a i p n o pre :
     Inv g A tr -> ph (views A t) = PConv a i p n -> pfx A a = Some (o, pre) ->
     Inv (with_arr g (set_slot (arr g) n (cut (hash (ikey g p)) (o + bits_of a) abits) (mkSlot p 0)))
-        (set_view A t (mkL (PStored a i p n) (ka (views A t)) (ko (views A t)) (kpre (views A t)))) tr.
+        (set_view A t (set_ph (views A t) (PStored a i p n))) tr.
   Proof.
     intros I Hph Hp. destruct I.
     set (idx := cut (hash (ikey g p)) (o + bits_of a) abits). set (A' := set_view A t _).
@@ -347,13 +357,14 @@ Section Inv.
       + unfold pending in Hpd. rewrite Hph in Hpd. destruct Hpd as [E|E]; inversion E; subst. congruence.
       + apply (Hnp u a1 i1 p1). unfold A'; cbn. destruct (Nat.eqb_spec u t); [congruence|exact Hpd].
     - intros u. unfold A'; cbn. destruct (Nat.eqb_spec u t) as [->|]; [cbn|]; apply i_known0.
+    - intros u. unfold A'; cbn [views set_view set_pfx]. destruct (Nat.eqb_spec u t) as [->|]; [cbn|]; apply i_items0.
   Qed.
 
   (** the second CAS of expand_slot: converting -> array node; the pending node becomes linked *)
   Lemma Inv_link g A tr t a i p n o pre :
     Inv g A tr -> ph (views A t) = PStored a i p n -> pfx A a = Some (o, pre) ->
     Inv (with_arr g (set_slot (arr g) a i (mkSlot n 2)))
-        (set_view (set_pfx A n (child o pre (bits_of a) i)) t (mkL PIdle (ka (views A t)) (ko (views A t)) (kpre (views A t)))) tr.
+        (set_view (set_pfx A n (child o pre (bits_of a) i)) t (set_ph (views A t) PIdle)) tr.
   Proof.
     intros I Hph Hp. destruct I.
     set (A' := set_view _ t _).
@@ -398,7 +409,7 @@ Section Inv.
       + inversion H1; subst o0 pre0. rewrite set_slot_other in H2 by (intros E; inversion E; congruence).
         rewrite Hcont in H2. destruct (Nat.eqb_spec i0 (cut (hash (ikey g p)) (o + bits_of a) abits)) as [->|Hj]; [|inversion H2; congruence].
         inversion H2; subst p0 b0. split; [|split; [exact Hple|lia]]. unfold fits. split.
-        * Show. rewrite mod_extend. rewrite F1. rewrite <- cut_N. rewrite <- F2. reflexivity.
+        * cbn [ikey with_arr]. rewrite mod_extend. rewrite F1. rewrite <- cut_N. rewrite <- F2. reflexivity.
         * unfold Feldman.bits_of. destruct (Nat.eqb_spec n 0); [congruence|reflexivity].
       + destruct (set_slot_cases (arr g) a i (mkSlot n 2) a0 i0) as [[E Hv]|[E Hv]]; rewrite Hv in H2.
         * inversion H2; congruence.
@@ -445,7 +456,7 @@ Section Inv.
       destruct (i_pend0 u a0 i0 p0 n0 Hpd) as (_ & H3 & _).
       exists o0, pre0. split; [apply PFXs; exact H1|]. intros j. rewrite set_slot_other; [apply H2|]. intros E; inversion E; subst. congruence.
     - intros u u' a1 i1 p1 n1 a2 i2 p2 n2 Hne H1 H2. apply PO in H1. apply PO in H2. destruct H1, H2. eapply (i_pend_uniq0 u u'); eauto.
-    - intros n0 Hn00 Hnp j. rewrite PFX in Hn00. destruct (Nat.eqb_spec n0 n) as [->|Hne]; [discriminate|].
+    - intros n0 Hn00 Hnp j. rewrite PFX in Hn00. destruct (Nat.eqb_spec n0 n) as [E0|Hne]; [discriminate|].
       rewrite set_slot_other; [|intros E; inversion E; subst; congruence].
       apply i_unlinked0; [exact Hn00|]. intros u a1 i1 p1 Hpd.
       destruct (Nat.eq_dec u t) as [->|Hu].
@@ -454,5 +465,30 @@ Section Inv.
     - intros u. assert (K := i_known0 u). unfold A'; cbn [views set_view set_pfx]. destruct (Nat.eqb_spec u t) as [->|]; cbn [ka ko kpre].
       + apply PFXs. exact (i_known0 t).
       + apply PFXs. exact K.
+    - intros u. unfold A'; cbn [views set_view set_pfx]. destruct (Nat.eqb_spec u t) as [->|]; [cbn|]; apply i_items0.
+  Qed.
+
+  (** remembering the key of an item seen in a slot of a linked array / of the item the thread created *)
+  Definition know_item (l : L) (p k : nat) : L := mkL (ph l) (ka l) (ko l) (kpre l) p k (kid l) (kidk l).
+  Definition know_id (l : L) (p k : nat) : L := mkL (ph l) (ka l) (ko l) (kpre l) (kit l) (kkey l) p k.
+
+  Lemma Inv_view_fields g A tr t l :
+    Inv g A tr -> ph l = ph (views A t) -> ka l = ka (views A t) -> ko l = ko (views A t) -> kpre l = kpre (views A t) ->
+    ((kit l <> 0 -> kit l <= nitem g /\ ikey g (kit l) = kkey l) /\ (kid l <> 0 -> kid l <= nitem g /\ ikey g (kid l) = kidk l)) ->
+    Inv g (set_view A t l) tr.
+  Proof.
+    intros I E1 E2 E3 E4 Hit. destruct I.
+    assert (PV : forall u a' i p n, pending (views (set_view A t l) u) a' i p n <-> pending (views A u) a' i p n).
+    { intros u a' i p n. cbn. destruct (Nat.eqb_spec u t) as [->|]; [unfold pending; rewrite E1|]; tauto. }
+    assert (PH : forall u, ph (views (set_view A t l) u) = ph (views A u)).
+    { intros u. cbn. destruct (Nat.eqb_spec u t) as [->|]; [exact E1|reflexivity]. }
+    constructor; cbn [pfx set_view]; auto.
+    - intros u a' i p n H. apply (i_pend0 u); apply PV; exact H.
+    - intros u a' i p n H. apply (i_pend_conv0 u a' i p). rewrite <- PH. exact H.
+    - intros u a' i p n H. apply (i_pend_stored0 u a' i p). rewrite <- PH. exact H.
+    - intros u u' a1 i1 p1 n1 a2 i2 p2 n2 Hne H1 H2. eapply (i_pend_uniq0 u u'); [exact Hne|apply PV; exact H1|apply PV; exact H2].
+    - intros n Hn Hnp. apply i_unlinked0; [exact Hn|]. intros u a' i p Hpd. apply (Hnp u a' i p). apply PV. exact Hpd.
+    - intros u. cbn. destruct (Nat.eqb_spec u t) as [->|]; [rewrite E2, E3, E4|]; apply i_known0.
+    - intros u. cbn. destruct (Nat.eqb_spec u t) as [->|]; [exact Hit|apply i_items0].
   Qed.
 End Inv.
